@@ -33,6 +33,7 @@ const F_RECOVERED_START: usize = 4;
 const F_SOURCE_EOF: usize = 5;
 const F_LAGGARD_OVERTAKES: usize = 6;
 const F_CLONE: usize = 7;
+const F_LONE_LAGGARD: usize = 8;
 
 const P_LEAD_EQ_CAP: usize = 0;
 const P_CAP1: usize = 1;
@@ -394,6 +395,51 @@ fn drive<F: TagFrame, D: SliceMut<Element = F> + ForkClone<ProbeSignal<F>>>(
     }
     let mut br = fork.by_rc();
     epoch(&mut br, true, &mut m, &mut st, end, &pulls, src, obs)?;
+    // epilogue: one of the reference-counted handles is dropped while the other may still lag; the
+    // survivor is owed every frame queued for it and then carries on with the source alone
+    let drop_branch = src.cfg("drop_branch", 0, 2, |r| if r.chance(1, 3) { r.range(1, 2) } else { 0 });
+    let lone_pulls = src.cfg("lone_pulls", 0, 60, |r| r.range(0, 60)) as u64;
+    if drop_branch != 0 {
+        let (a, b) = br;
+        let survivor_is_a = drop_branch == 2;
+        let (mut c, other) = if survivor_is_a { (m.ca, m.cb) } else { (m.cb, m.ca) };
+        if c < other {
+            obs.fault(F_LONE_LAGGARD);
+            obs.inflight();
+        }
+        let mut next: Box<dyn FnMut() -> (F, usize)> = if survivor_is_a {
+            drop(b);
+            let mut a = a;
+            Box::new(move || {
+                let f = a.next();
+                (f, a.pending_frames())
+            })
+        } else {
+            drop(a);
+            let mut b = b;
+            Box::new(move || {
+                let f = b.next();
+                (f, b.pending_frames())
+            })
+        };
+        for _ in 0..lone_pulls {
+            let want: F = ProbeSignal::<F>::expect(5, end, c);
+            let (got, pending) = next();
+            c += 1;
+            check_eq!(
+                obs,
+                got,
+                want,
+                "fork.lone-branch-frame",
+                "branch {} at stream position {} after the other handle was dropped at {}",
+                if survivor_is_a { "A" } else { "B" },
+                c - 1,
+                other
+            );
+            check_eq!(obs, pulls.get(), c.max(other), "fork.source-pulls", "source pulled once per distinct frame (one handle dropped)");
+            check_eq!(obs, pending as u64, other.saturating_sub(c), "fork.pending", "pending_frames() of the surviving branch at {} (other dropped at {})", c, other);
+        }
+    }
     Ok(())
 }
 
@@ -446,6 +492,7 @@ impl Scenario for ForkScenario {
             "source end-of-stream reached",
             "laggard overtakes in one burst (queue hand-over)",
             "fork cloned between two splits (possibly with frames pending), the clone is used from then on",
+            "one reference-counted handle dropped while the other still lags",
         ]
     }
     fn probes(&self) -> &'static [&'static str] {
